@@ -144,8 +144,20 @@ func (g *gen) simple2() Val {
 // argument of a print call (pointers to structs print their address
 // anywhere else, which would not be stable across processes).
 func (g *gen) val(depth int, top bool) Val {
-	if g.typeStorm && g.chance(0.4) {
-		return Val{K: "arrn", I: int64(g.r.Intn(1500))}
+	if g.typeStorm {
+		// many distinct types, and many operands whose treatment depends on
+		// a per-type answer (SafeValue implementations)
+		switch y := g.r.Intn(100); {
+		case y < 35:
+			return Val{K: "arrn", I: int64(g.r.Intn(1500))}
+		case y < 60:
+			k := g.pick(safeKinds)
+			v := Val{K: k, I: int64(g.r.Intn(300))}
+			if k == "sstr" || k == "sbytes" {
+				v.S = Str(g.payload())
+			}
+			return v
+		}
 	}
 	x := g.r.Intn(100)
 	switch {
@@ -579,6 +591,13 @@ func generate(prop string, seed int64, tier string) *Plan {
 		maxOps = 40
 	}
 	pz := []float64{0.2, 0.5, 0.8, 0.95}[g.r.Intn(4)]
+	if g.typeStorm {
+		// a storm only matters when tasks interleave densely
+		if nt < 4 {
+			nt = 4 + g.r.Intn(5)
+		}
+		pz = []float64{0.2, 0.4}[g.r.Intn(2)]
+	}
 	special := []float64{0, 0.05, 0.2}[g.r.Intn(3)]
 	for _, k := range opKindsC12 {
 		if g.chance(0.12) {
